@@ -148,7 +148,7 @@ Proof. exists 59, 999999600, 6%nat. vm_compute. repeat split. Qed.
    hypotheses of the round-trip theorem and gives the expected six texts and tick counts; the
    log renderer at six places on 23:59:59.499999999 meets the hypothesis of log_partial_lemma *)
 Lemma nonvacuous_lemma :
-  0 <= 951868799999000000 < 2147483648 * NS_SEC /\
+  in_range 951868799999000000 = true /\
   observe (roundtrip 951868799999000000) =
     [([50; 48; 48; 48; 48; 50; 50; 57; 45; 50; 51; 58; 53; 57; 58; 53; 57; 46; 57; 57; 57], Some 951868799999000000);
      ([50; 51; 58; 53; 57; 58; 53; 57; 46; 57; 57; 57], Some 86399999000000);
